@@ -126,7 +126,7 @@ def shard(ctx):
     while not ctx.out_of_time():
         rng = ctx.rng(i)
         i += ctx.nshards
-        w = workload.draw(rng, kinds=("isa", "casc", "corpus", "mut", "isamut", "macro"), weights=(2, 6, 2, 2, 1, 3))
+        w = workload.draw(rng, kinds=("isa", "casc", "corpus", "mut", "isamut", "macro", "deep"), weights=(2, 5, 2, 2, 1, 3, 4))
         ctx.count("kind:" + w["kind"])
         results = []
         bad = False
